@@ -1,8 +1,10 @@
 /-
   C01.3 — the compiler and the backtracking VM agree with the reference semantics on a
-  fragment of jq with closures and recursion (Model/MiniVM.lean): identity, constants, pipe,
-  comma, `.[]`, `empty`, `[q]`, one-filter-parameter functions `def f(g): …` with arbitrary
-  recursion, the parameter `g`, calls `f(a)` whose argument is passed as a closure.
+  fragment of jq with closures, recursion and error handling (Model/MiniVM.lean): identity,
+  constants, pipe, comma, `.[]`, `empty`, `[q]`, `error`, `try b`, `try b catch h`,
+  one-filter-parameter functions `def f(g): …` with arbitrary recursion, the parameter `g`,
+  calls `f(a)` whose argument is passed as a closure.  The text of the iterator error that
+  `catch` receives is a parameter (`IterMsg`): the theorems hold for every message function.
 
   `compile` emits the instructions compiler.go emits for these forms with all optimisations
   off and `step` is the `Next()` loop for the opcodes they use; both are tied to the code on
@@ -17,6 +19,8 @@
 import Gojq.Proofs.MiniVMProg
 namespace Gojq.C01Compile
 open Gojq Gojq.MiniVM
+
+variable [IterMsg]
 
 /-- Compiler correctness, in its compositional form.  Let `code` contain the functions laid out
     as `compileFuncDef` does (`FuncsOK`).  Take ANY query `q` of the fragment whose code sits at
@@ -44,12 +48,6 @@ theorem compile_yields {code defs entry nf} (hfun : FuncsOK code defs entry nf)
       (.run p (.v v :: S) F false none R fr o cp) (eval defs n g ρ q v).outs (eval defs n g ρ q v).stop.toErr :=
   MiniVM.compile_yields hfun n q g e p hep hseg hcl ρ v S F R fr o cp P htop hge hpar hP henv hoff hnd
 
-/-- `def f₀(g): ., (.[] | f₀(g)); f₀(.)` : recursive descent -/
-def exProg : Prog :=
-  { defs := [.comma .param (.pipe .iter (.call1 0 .param))], main := .call1 0 .id }
-/-- `[[], [[]]]` -/
-def exInput : V := .arr [.arr [], .arr [.arr []]]
-
 /-- The layout `compileProg` produces (what `Compile` produces: `scope; jump…; scope; store; store;
     load; body; ret; …; main; ret`) satisfies the layout hypothesis of `compile_yields`, for
     every well-scoped program. -/
@@ -72,7 +70,10 @@ theorem compile_refines_spec_fragment (p : Prog) (hwf : p.WF) (v : V) (n : Nat)
       (eval p.defsFn n none .none p.main v).outs (eval p.defsFn n none .none p.main v).stop.toErr :=
   prog_refines p hwf v n hnd
 
-example : ND (eval exProg.defsFn 40 none .none exProg.main exInput).stop := by decide
+example : ND (@eval exMsg exProg.defsFn 40 none .none exProg.main exInput).stop := by decide
+example : exTry.WF ∧ exTryCont.WF :=
+  ⟨⟨by simp [exTry], by simp [Q.Closed, exTry], by simp [Q.HasParam, exTry]⟩,
+   ⟨by simp [exTryCont], by simp [Q.Closed, exTryCont], by simp [Q.HasParam, exTryCont]⟩⟩
 
 /-- The same about the EXECUTABLE interpreter the correspondence stream runs (`runProg`, i.e.
     `exec`: iterate `step`, collect what `Next()` returns): with enough fuel — and then with any
@@ -81,13 +82,24 @@ example : ND (eval exProg.defsFn 40 none .none exProg.main exInput).stop := by d
 theorem compile_refines_spec_fragment_exec (p : Prog) (hwf : p.WF) (v : V) (n : Nat)
     (hnd : ND (eval p.defsFn n none .none p.main v).stop) :
     ∃ fuel, ∀ k, runProg p (fuel + k) v =
-      .finished (eval p.defsFn n none .none p.main v).outs (eval p.defsFn n none .none p.main v).stop.toErr := by
+      .finished (eval p.defsFn n none .none p.main v).outs
+        ((eval p.defsFn n none .none p.main v).stop.toErr.map .plain) := by
   obtain ⟨fuel, h⟩ := run_exec (prog_refines p hwf v n hnd) []
   exact ⟨fuel, fun k => exec_mono _ _ _ _ _ (by simpa using h) k⟩
 
 /-- the mini VM on the example: 4 outputs (the input, `[]`, `[[]]`, `[]`), no error -/
-example : (match runProg exProg 400 exInput with | .finished outs none => outs.length | _ => 0) = 4 := by
+example : (match @runProg exMsg exProg 400 exInput with | .finished outs none => outs.length | _ => 0) = 4 := by
   decide +kernel
+
+/-- `try ((.[] | error), 1) catch [.]` on `[7, 8]` is `[7]`: the handler runs on the error value and
+    the body is not resumed -/
+example : (match @runProg exMsg exTry 400 exInput2 with
+    | .finished [.arr [.num (.int 7)]] none => true | _ => false) = true := by decide +kernel
+
+/-- `(try 1 catch 2) | error`: no output, the uncaught error value `1` — `try` does not intercept
+    an error of its continuation -/
+example : (match @runProg exMsg exTryCont 400 exInput2 with
+    | .finished [] (some (.plain (.user (.num (.int 1))))) => true | _ => false) = true := by decide +kernel
 
 /-- What the machine emits is determined: two complete runs from the same state agree. -/
 theorem run_deterministic {code c o1 e1 o2 e2} (r1 : Run code c o1 e1) (r2 : Run code c o2 e2) :
@@ -97,13 +109,19 @@ theorem run_deterministic {code c o1 e1 o2 e2} (r1 : Run code c o1 e1) (r2 : Run
   have a := exec_mono _ _ _ _ _ h1 n2
   have b := exec_mono _ _ _ _ _ h2 n1
   rw [Nat.add_comm n2 n1, a] at b
-  simpa using b
+  simp only [List.reverse_nil, List.nil_append, Outcome.finished.injEq] at b
+  refine ⟨b.1, ?_⟩
+  have h := b.2
+  cases e1 <;> cases e2 <;> simp_all
 
-/-- An error raised while forks are pending unwinds through all of them (every `fork` / `iter`
-    re-entered with `backtrack` and `err` set breaks the loop again): the error is terminal. -/
-theorem error_unwinds_through_forks {code F'} (h : ForksOK code F') (F : List Fork) (e : Err) (R : Regs) :
-    Steps code (.fail (F' ++ F) (some e) R) (.fail F (some e) R) :=
-  err_through h F e R
+/-- An error raised by the rest of the program while the forks a segment left behind are pending
+    unwinds through all of them unchanged: every `fork` / `iter` re-entered with `backtrack` and
+    `err` set breaks the loop again, and the `forktryend` fork pushed after each output of a `try`
+    body wraps the error in a `tryEndError` which the `forktrybegin` of that `try` unwraps and
+    passes on instead of catching — `try` does not intercept errors of its continuation. -/
+theorem error_unwinds_through_forks {code F'} (h : ForksOK code F') (F : List Fork) (x : VErr) (R : Regs) :
+    Steps code (.fail (F' ++ F) (some x) R) (.fail F (some x) R) :=
+  err_through h F x R
 
 example {code : Code} : ForksOK code [] := ForksOK.nil
 
